@@ -97,9 +97,22 @@ class C03(E1Prop):
                 w.probe('advance-exempt-by-bypass')
                 continue
             mode = 'no_octopus' if self.no_octopus(w, merged) else 'octopus'
+            key = 'C03:unbuilt-tip:%s:%s:%s' % (job_kind(rec),
+                                                rec['status'], mode)
+            if rec['status'] == 'Merged':
+                # queue merge: was the build check made on a later queued
+                # PR's commit of the same version (which contains this one)?
+                later_green = False
+                for r, sha in rec['refs_before'].items():
+                    if r.startswith('q/w/') and sha != new and \
+                            w.green(sha) and w.is_ancestor(new, sha) and \
+                            r.split('/')[3] == ref.split('/', 1)[1]:
+                        later_green = True
+                key = 'C03:unbuilt-tip:queue-merge:%s:%s' % (
+                    ref.split('/')[0], 'green-only-on-a-later-pr'
+                    if later_green else 'never-green')
             raise Violation(
-                'C03', 'C03:unbuilt-tip:%s:%s:%s' % (
-                    job_kind(rec), rec['status'], mode),
+                'C03', key,
                 '%s advanced to %s, a commit on which build key %r was '
                 'never reported SUCCESSFUL (job %s, status %s, merged PRs '
                 '%s)' % (ref, new[:10], w.build_key, rec['job'],
